@@ -17,7 +17,7 @@ func init() {
 	property("C12",
 		"Static conformance of poryswitch selection: (a) every selector returns, for each case map, the entry under the -s value when that key is present and otherwise the entry under '_' (presence decided by the comma-ok bit, not by the value), parallel maps with the same key sequence, and fails under enableEnvironmentErrors when neither exists; (b) the header takes the value from compileSwitches[identifier] and errors for missing switches only under enableEnvironmentErrors; (c) parsing the cases can write only the token window, the scope stacks and the font cache of the Parser — nothing an unselected case produced can reach the program except through the case map; (d) '-s K=V' splits at the first '='.",
 		[]string{"scheme argument of DESIGN §4 C12", "balanced scope stacks (C20.a)"},
-		"C12.a", "C12.b", "C12.c", "C12.d", "C12.e", "C09.d", "C06.c", "C12.f", "C12.g", "C01.h", "C17.f", "C17.g")
+		"C12.a", "C12.b", "C12.c", "C12.d", "C12.e", "C09.d", "C06.c", "C12.f", "C12.g", "C01.h", "C17.f", "C17.g", "C20.a")
 	property("C13",
 		"Static conformance of constant substitution: (a) every token literal that is accumulated into an argument, operand, comparison value, case value, table-entry field, mart item or constant value passes through tryReplaceWithConstant (the only exceptions are literal parentheses); (b) names (identifiers, labels, map script names, movement steps) and text are never passed through it; (c) a constant is stored only after the duplicate check, its value is scanned up to the next top-level keyword; (d) the helper is a pure lookup that returns its argument when the name is not a constant.",
 		[]string{"that textual and token-wise replacement coincide for multi-token values is not decided"},
@@ -300,7 +300,68 @@ func c12c(c *Ctx) {
 			}
 		}
 		c.Check(len(bad) == 0 && n > 0, fn.Name()+"/effects", c.W.FuncPos(fn), "parsing the cases writes only the token window, scope stacks and font cache of the parser", fmt.Sprintf("parsing the cases may write %v: content of a case that is not selected could influence the output", bad))
+		// the maps written while parsing cases are maps made on the way (case tables, seen-sets):
+		// none is a map the parser holds (constants, switches, hoisting tables)
+		seen := map[*ssa.Function]bool{}
+		var held []string
+		var visit func(g *ssa.Function, depth int)
+		visit = func(g *ssa.Function, depth int) {
+			if g == nil || seen[g] || !c.W.InRepo(g) || len(g.Blocks) == 0 || depth > 12 {
+				return
+			}
+			seen[g] = true
+			instrs(g, func(in ssa.Instruction) {
+				switch x := in.(type) {
+				case *ssa.MapUpdate:
+					if r := mapRootField(x.Map); r != "" {
+						held = append(held, g.Name()+" writes "+r+" at "+c.W.Pos(x.Pos()))
+					}
+				case ssa.CallInstruction:
+					if calleeName(x) == "builtin:delete" {
+						if r := mapRootField(x.Common().Args[0]); r != "" {
+							held = append(held, g.Name()+" deletes from "+r+" at "+c.W.Pos(x.Pos()))
+						}
+					}
+					visit(callee(x), depth+1)
+					for _, a := range x.Common().Args {
+						if mc, ok := a.(*ssa.MakeClosure); ok {
+							if h, ok := mc.Fn.(*ssa.Function); ok {
+								visit(h, depth+1)
+							}
+						}
+						if h, ok := a.(*ssa.Function); ok {
+							visit(h, depth+1)
+						}
+					}
+				}
+			})
+		}
+		visit(fn, 0)
+		c.Check(len(held) == 0, fn.Name()+"/no-parser-map-written", c.W.FuncPos(fn), fmt.Sprintf("no map held by the parser is written while cases are parsed (%d functions reachable)", len(seen)), fmt.Sprintf("while parsing poryswitch cases a map held by the parser is written (%v): a case that is not selected would leave a trace", held))
 	}
+}
+
+// mapRootField: the map value is loaded from a field of the Parser (p.constants, p.compileSwitches, ...).
+func mapRootField(m ssa.Value) string {
+	for i := 0; i < 4; i++ {
+		switch x := m.(type) {
+		case *ssa.UnOp:
+			if _, t, f, ok := fieldAddrOf(x.X); ok && typeIs(t, "parser", "Parser") {
+				return "Parser." + f
+			}
+			m = x.X
+		case *ssa.Phi:
+			for _, e := range x.Edges {
+				if r := mapRootField(e); r != "" {
+					return r
+				}
+			}
+			return ""
+		default:
+			return ""
+		}
+	}
+	return ""
 }
 
 func c12d(c *Ctx) {
@@ -911,7 +972,26 @@ func c14a(c *Ctx) {
 				apps++
 				es := varargElems(ap.Call.Args[1])
 				if len(es) == 1 && strings.HasPrefix(c.term(fn, es[0]), "$0.curToken") {
-					okElem = true
+					// ... the step token itself: read while the current token is the identifier, before
+					// the parser moves on to '*' and the number
+					if ld, isLd := es[0].(*ssa.UnOp); isLd {
+						ident := false
+						for _, l := range c.mustLits(fn, ld.Block()) {
+							if strings.HasPrefix(l, "+($0.curToken") && strings.HasSuffix(l, `.Type == "IDENT")`) {
+								ident = true
+							}
+						}
+						moved := false
+						for _, x := range ld.Block().Instrs {
+							if x == ssa.Instruction(ld) {
+								break
+							}
+							if ci, isCall := x.(ssa.CallInstruction); isCall && strings.HasSuffix(calleeName(ci), ".nextToken") {
+								moved = true
+							}
+						}
+						okElem = ident && !moved
+					}
 				}
 			}
 		}
@@ -1176,6 +1256,93 @@ func c12e(c *Ctx) {
 		}
 		c.Check(ok && n > 0, fn.Name()+"/repeats-only-if-multiple", c.W.Pos(firstPos(head)), "the loop goes round again only when multiple items are allowed", "the item loop can repeat although only a single item is allowed (colon-form case): the following case label would be parsed as content of this case")
 	}
+	c12eCallers(c)
+}
+
+// c12eCallers: what the item parsers are told. "Multiple items allowed" is the brace form of a
+// case: the flag handed to parsePoryswitchStatements / parseMovementValue / parseMartValue — and
+// to a list-value parser passed as a function value — is (a) the test "the current token is '{'",
+// (b) the caller's own flag handed on (adapters), or (c) the constant true where the caller has no
+// such flag (a top-level movement / mart / block, which is brace-delimited by syntax).
+func c12eCallers(c *Ctx) {
+	targets := map[*ssa.Function]bool{}
+	for _, name := range []string{"parser.Parser.parsePoryswitchStatements", "parser.parseMovementValue", "parser.parseMartValue"} {
+		if f := c.Fn(name); f != nil {
+			targets[f] = true
+		}
+	}
+	isBool := func(t types.Type) bool {
+		b, ok := t.Underlying().(*types.Basic)
+		return ok && b.Kind() == types.Bool
+	}
+	n := 0
+	for _, fn := range c.W.FuncsOf("parser") {
+		if isTestFunc(c.W, fn) {
+			continue
+		}
+		ownFlag := false
+		for _, p := range fn.Params {
+			if isBool(p.Type()) {
+				ownFlag = true
+			}
+		}
+		// a function that tells the two case forms apart itself has the answer at hand: it may not
+		// pass a constant
+		instrs(fn, func(in ssa.Instruction) {
+			if bo, ok := in.(*ssa.BinOp); ok && bo.Op == token.EQL {
+				for _, v := range []ssa.Value{bo.X, bo.Y} {
+					if s, ok := strConst(v); ok && s == "{" {
+						ownFlag = true
+					}
+				}
+			}
+		})
+		for _, ci := range callsIn(fn) {
+			com := ci.Common()
+			g := callee(ci)
+			isTarget := g != nil && targets[g]
+			if g == nil && !com.IsInvoke() {
+				// a call through a function value of the list-value-parser shape: (p *Parser, flag bool)
+				if sig, ok := com.Value.Type().Underlying().(*types.Signature); ok && sig.Params().Len() == 2 && typeIs(sig.Params().At(0).Type(), "parser", "Parser") && isBool(sig.Params().At(1).Type()) {
+					isTarget = true
+				}
+			}
+			if !isTarget {
+				continue
+			}
+			var flag ssa.Value
+			for _, a := range com.Args {
+				if isBool(a.Type()) {
+					flag = a
+				}
+			}
+			if flag == nil {
+				continue
+			}
+			n++
+			kind := ""
+			switch x := flag.(type) {
+			case *ssa.Parameter:
+				kind = "handed on"
+			case *ssa.Const:
+				if x.Value != nil && x.Value.String() == "true" && !ownFlag {
+					kind = "always multiple (no flag of its own)"
+				}
+			case *ssa.BinOp:
+				if x.Op == token.EQL {
+					for _, pair := range [][2]ssa.Value{{x.X, x.Y}, {x.Y, x.X}} {
+						if s, ok := strConst(pair[1]); ok && s == "{" && strings.HasSuffix(stripLoopTags(c.term(fn, pair[0])), "Token.Type") {
+							kind = "brace form"
+						}
+					}
+				}
+			case *ssa.FreeVar:
+				kind = "handed on"
+			}
+			c.Check(kind != "", fmt.Sprintf("multiple-flag/%s@%d", c.W.FuncKey(fn), c.T(fn).callOrd[ci]), c.W.Pos(ci.Pos()), "the item parser is told 'multiple' exactly for the brace form ("+kind+")", "the 'multiple items allowed' flag passed here is "+pretty(c.term(fn, flag))+": it must be the test for the brace form of the case (or the caller's own flag): a colon-form case would swallow the following case label, or a brace-form case would stop after one item")
+		}
+	}
+	c.Check(n >= 5, "multiple-flag/sites", "-", fmt.Sprintf("%d calls of item parsers examined", n), fmt.Sprintf("expected at least 5 calls that pass the multiple-items flag, found %d", n))
 }
 
 // c12f: the selection protocol (C12.a) tells "case present" from "case absent" by the
